@@ -270,6 +270,34 @@ def check_poseidon(prop, tier, seed, work, t0):
         required=POS_REQUIRED[prop], replay_info={"harness": "poseidon.cpp", "how": "./check %s --replay <file>" % prop})
 
 
+# ------------------------------------------------------------------------------------------ C09
+C09_RULE = ("coefficient triples: all 12^6 pairs over the 12-value boundary set {0,1,2,p-1,p,p+1,2^64-1,2^32-1,2^32,(p-1)/2,0x5555..,2^63} (exhaustive), mixed G64 "
+            "random triples with zero coefficients forced in an eighth of them; every scalar overload of add/sub/neg/mul/square/div/mul-by-u64/mulScalar(decimal string)/"
+            "copy/fromU64/toU64 in reference, pointer and aliasing forms (out=a, out=b, a=b) against the schoolbook oracle (integer product, x^3=x+1, mod p); inv by a*inv(a)=1 "
+            "and equality with Gaussian elimination in the oracle on structured elements (one/two zero coefficients, base-field elements); batchInverse for every length 1..130 and "
+            "1000, 50000, 174762, 174763, 400000 (+3*10^6 thorough), in place and out of place, each in its own forked child; isOne on all 8 representations of (1,0,0) and on "
+            "elements differing from one in exactly one coefficient. distinct = hash of the operand pair / index in the exhaustive family (capped set).")
+C09_REQUIRED = ["family:boundary_triples_12^6", "family:boundary_triples_exhaustive_shards", "family:random_triples", "family:inv_structured", "forms:aliasing_checked",
+                "forms:mulScalar_string", "in:noncanonical_coefficient", "in:element_with_zero_coefficients", "in:base_field_element(b=c=0)", "inv:no_zero_coefficient",
+                "inv:one_zero_coefficient", "inv:two_zero_coefficients", "isOne:representations_of_one", "isOne:one_coefficient_off", "isOne:true_cases",
+                "batchInverse:every_length_1..130", "batchInverse:long", "batchInverse:beyond_8MiB_of_temporaries"]
+
+
+@reg("C09")
+def check_cubic(prop, tier, seed, work, t0):
+    libs = ["goldilocks_base_field.cpp", "goldilocks_cubic_extension.cpp"]
+    bins = vfw.build_many(work, [{"name": "cubic-prod", "flavour": "prod", "srcs": [H("cubic.cpp")], "libsrcs": libs},
+                                 {"name": "cubic-asan", "flavour": "asan", "srcs": [H("cubic.cpp")], "libsrcs": libs}])
+    th = tier == "thorough"
+    res = vfw.Results()
+    res.merge(vfw.run_shards(work, bins["cubic-prod"], prop, tier, seed, NCPU, [], tag="prod", timeout=7200 if th else 1500))
+    res.merge(vfw.run_shards(work, bins["cubic-asan"], prop, tier, seed + 1000003, NCPU, ["--random", scaled(tier, 1000000, 30000000), "--boundary_step", scaled(tier, 16, 4)],
+                             tag="asan", timeout=7200 if th else 1500))
+    extra = {"boundary_family_exhaustive": res.counters.get("family:boundary_triples_exhaustive_shards", 0) >= NCPU}
+    return vfw.finalize(prop, tier, seed, res, t0, C09_RULE, assumptions=ASSUME_COMMON, required=C09_REQUIRED, extra_cov=extra,
+                        replay_info={"harness": "cubic.cpp", "how": "./check C09 --replay <file>"})
+
+
 def replay(prop, path, work, seed):
     """Re-run the recorded violation: rebuild and run the same harness on the recorded case only."""
     rp = json.load(open(path))
